@@ -149,7 +149,16 @@ def gen_history(rng, f, ch, ty, lowzero, nops, depth_seed, route, special=None):
     def do_trunc(h):
         F = len(A.frames)
         n = rng.choice([0, F // 2, max(F - 1, 0), F])
-        emit("cmd %s 1080 8 %s" % (h, struct.pack("<q", n).hex()), lambda out: None if abscheck.parse_kv(out).get("ret") == "0" else "SFC_FILE_TRUNCATE returned %s" % out[:50])
+        arg = struct.pack("<q", n).hex()
+        if route == "vio":
+            # since the TRUNC-VIO repair: SF_VIRTUAL_IO has no truncate callback; the command is refused before the seek
+            # and before sf.frames is touched: SF_TRUE (1), no error, nothing changes (C08Refine truncate_refused_without_ftruncate)
+            emit("cmd %s 1080 8 %s" % (h, arg),
+                 lambda out: None if (abscheck.parse_kv(out).get("ret"), abscheck.parse_kv(out).get("err")) == ("1", "0")
+                 else "SFC_FILE_TRUNCATE through virtual I/O must be refused with 1 / no error, returned %s" % out[:50])
+            emit("info %s" % h, lambda out, F=F: None if abscheck.parse_kv(out).get("frames") == str(F) else "a refused SFC_FILE_TRUNCATE changed the frame count: %d before, %s after" % (F, abscheck.parse_kv(out).get("frames")))
+            return
+        emit("cmd %s 1080 8 %s" % (h, arg), lambda out: None if abscheck.parse_kv(out).get("ret") == "0" else "SFC_FILE_TRUNCATE returned %s" % out[:50])
         A.frames = A.frames[:n]
         A.rpos = A.wpos = n
         emit("info %s" % h, lambda out, n=n: None if abscheck.parse_kv(out).get("frames") == str(n) else "after truncating to %d frames the handle reports %s" % (n, abscheck.parse_kv(out).get("frames")))
@@ -191,7 +200,7 @@ def gen_history(rng, f, ch, ty, lowzero, nops, depth_seed, route, special=None):
             do_seek(h)
         elif r < 0.9:
             do_probe(h)
-        elif r < 0.94 and route != "vio":
+        elif r < 0.94:
             do_trunc(h)
         elif r < 0.97:
             emit("cmd %s 1060 0 null" % h)
